@@ -1,6 +1,7 @@
 package props
 
 import (
+	"bytes"
 	"fmt"
 	"sort"
 	"strings"
@@ -211,6 +212,8 @@ func (s *c18Sys) Key() string {
 
 // scheduler scenario: purge racing an in-flight fetch with a waiter, then a later request
 func c18Race(c *Ctx, name string, withStore bool, b vsched.Bounds) Sched {
+	getFault := strings.Contains(name, "read-fault")
+	preSerial := ""
 	cfg := c18Config(withStore)
 	return Sched{
 		Name:   name,
@@ -231,6 +234,22 @@ func c18Race(c *Ctx, name string, withStore bool, b vsched.Bounds) Sched {
 			e.Respond = func(oc *env.OriginCall) env.OriginResp { return env.Cacheable(oc, 60, "p") }
 			// /k2 is cached beforehand and must stay a hit
 			e.Do(env.Req{Addr: c18S1, URI: "/k2", Rid: "pro"})
+			if getFault && st != nil {
+				// a record of /k1 exists in the store only (memory lost), and the store's first read of it fails: the
+				// request refetches while the old record is still there for the purge to remove
+				p1 := e.Do(env.Req{Addr: c18S1, URI: "/k1", Rid: "pro1"})
+				preSerial, _, _, _, _, _ = env.ParseSelf(p1.Body)
+				freshCaches(cfg)
+				e.Do(env.Req{Addr: c18S1, URI: "/k2", Rid: "pro2"})
+				failed := false
+				st.Menu = func(op string, key []byte) []env.Fault {
+					if op == "get" && strings.HasSuffix(string(key), "/k1") && !failed {
+						failed = true
+						return []env.Fault{{Name: "error", Err: env.ErrInjected}}
+					}
+					return nil
+				}
+			}
 			e.Events()
 			var purgeBegin, purgeEnd int64
 			bodies := []func(){
@@ -268,6 +287,9 @@ func c18Race(c *Ctx, name string, withStore bool, b vsched.Bounds) Sched {
 				// origin call began before the purge began
 				af := an.Reqs["after"].Res
 				ser, _, _, _, _, _ := env.ParseSelf(af.Body)
+				if preSerial != "" && ser == preSerial && af.Begin > purgeEnd {
+					return &vsched.Violation{Sig: "store-resurrection-record-from-before-the-purge", Msg: fmt.Sprintf("request after the completed purge was labelled %s and served the record that had been in the store before the purge", af.XStatus)}
+				}
 				for _, cl := range an.Calls {
 					if fmt.Sprint(cl.Call.Serial) == ser && cl.Begin < purgeBegin && af.Begin > purgeEnd {
 						sig := "served-pre-purge-content"
@@ -277,7 +299,13 @@ func c18Race(c *Ctx, name string, withStore bool, b vsched.Bounds) Sched {
 						return &vsched.Violation{Sig: sig, Msg: fmt.Sprintf("request after the completed purge was labelled %s and served the body fetched by %s, whose origin call began before the purge", af.XStatus, cl.Call.Rid)}
 					}
 				}
-				// persisted copy: after everything ended the store may hold /k1 only from a fetch that began after the purge began
+				// persisted copy: after everything ended the store may hold /k1 only from a fetch of this run (not the
+				// record that was there before the purge)
+				if getFault && st != nil {
+					if rec, ok := st.Disk["GET a.com /k1"]; ok && preSerial != "" && bytes.Contains(rec.Data, []byte(preSerial+"|GET|")) {
+						return &vsched.Violation{Sig: "persisted-copy-survives-purge", Msg: "the record that was in the store before the purge is still there after it completed"}
+					}
+				}
 				return nil
 			}
 			_ = st
@@ -403,5 +431,6 @@ func init() {
 		}
 		c.RunSched(c18Race(c, "purge-vs-fetch-nostore", false, vsched.Bounds{Preempt: pre, Tick: 0, Data: -1, Total: -1}))
 		c.RunSched(c18Race(c, "purge-vs-fetch-store", true, vsched.Bounds{Preempt: pre, Tick: 0, Data: -1, Total: -1}))
+		c.RunSched(c18Race(c, "purge-vs-fetch-store-read-fault", true, vsched.Bounds{Preempt: pre, Tick: 0, Data: -1, Total: -1}))
 	})
 }
